@@ -325,14 +325,16 @@ func (c *c09) run(pc J2PCase) {
 		die("generated text is not valid JSON: %v: %s", perr, text)
 	}
 	src := pNone()
+	srcb := B{}
 	if pc.Src != nil {
 		src = *pc.Src
+		srcb = B(refMarshal(msgFromPVal(c.env.rroot, src)))
 	}
 	full := J2PCase{Schema: &c.env.schema, Text: text, Src: pc.Src, Disallow: pc.Disallow, Variant: pc.Variant}
 	opts := conv.Options{DisallowUnknownField: pc.Disallow}
 	for _, api := range []string{"Do", "DoInto/0", "DoInto/prefix"} {
 		ev := map[string]interface{}{"ev": "J2P", "api": api, "d": d, "src": src, "variant": pc.Variant, "disallow": pc.Disallow,
-			"st": "ok", "ref": pNone(), "text": text, "case": full, "panicked": false}
+			"st": "ok", "ref": pNone(), "text": text, "case": full, "panicked": false, "srcb": srcb}
 		var outb []byte
 		var err error
 		prefix := ""
